@@ -16,7 +16,7 @@ change anywhere it should not be is a violation.
 import random
 
 from vmon import env  # noqa: F401
-from vmon.simkit import Top, Mon, simulate, bits
+from vmon.simkit import Top, Mon, simulate, bits, omit
 from vmon.work.mux import Probe
 from vmon.props.c11 import ProbeAction
 from vmon.props.c16 import min_aw as gpio_min_aw
@@ -127,7 +127,7 @@ class Build:
             return mux.bus
         if kind == "bridge":
             k = aw if rng.random() < 0.4 else rng.randint(1, aw)
-            b = csr.Builder(addr_width=k, data_width=dw, granularity=8 if dw % 8 == 0 else dw)
+            b = csr.Builder(**omit(rng, "csr.Builder", addr_width=k, data_width=dw, granularity=8 if dw % 8 == 0 else dw))
             regs = []
 
             def mkreg():
@@ -176,7 +176,7 @@ class Build:
                 s = event.Source(trigger=rng.choice(["level", "rise", "fall"]), path=(self.uid("src"),))
                 em.add(s)
                 self.src_inputs.append(s.i)
-            ev = EventMonitor(em, data_width=dw, alignment=al)
+            ev = EventMonitor(em, **omit(rng, "csr.EventMonitor", data_width=dw, alignment=al))
             self.add_mod(ev)
             self.kinds.add("event-monitor")
             self.claims[id(ev.bus.memory_map)] = "csr"
@@ -185,7 +185,8 @@ class Build:
         need = gpio_min_aw(pins, dw)
         if need > aw:
             return None
-        g = gpio.Peripheral(pin_count=pins, addr_width=rng.randint(need, aw), data_width=dw, input_stages=rng.choice([0, 2]))
+        g = gpio.Peripheral(**omit(rng, "gpio.Peripheral", pin_count=pins, addr_width=rng.randint(need, aw), data_width=dw,
+                                   input_stages=rng.choice([0, 2])))
         self.add_mod(g)
         for p in g.pins:
             self.pin_inputs.append(p.i)
@@ -197,7 +198,8 @@ class Build:
         """csr.Decoder with `aw` address bits over a random mix of leaves and nested decoders."""
         rng = self.rng
         self.depth = max(self.depth, lvl)
-        dec = csr.Decoder(addr_width=aw, data_width=dw, alignment=rng.choice([0, 0, 0, 1, 2]) if aw > 3 else 0)
+        dec = csr.Decoder(**omit(rng, "csr.Decoder", addr_width=aw, data_width=dw,
+                                 alignment=rng.choice([0, 0, 0, 1, 2]) if aw > 3 else 0))
         self.add_mod(dec)
         self.claims[id(dec.bus.memory_map)] = "csr"
         for _ in range(rng.randint(1, 4)):
